@@ -527,7 +527,8 @@ def worker(args):
 def main(run):
     quick = run.tier == "quick"
     area_shapes = [(1, 1), (1, 3), (2, 2), (1, 5), (2, 3), (2, 3, "T"), (2, 2, "I")] if quick else [(1, 1), (1, 3), (2, 2), (1, 5), (2, 3), (2, 3, "T"), (2, 2, "I"), (3, 2), (1, 6)]
-    contour_shapes = [(2, 2), (2, 3)] if quick else [(2, 2), (2, 3), (3, 2), (2, 4)]
+    # 8 cells ((2, 4)): 13 of 18 contour queries are `unknown` after 300 s each; outside the bound
+    contour_shapes = [(2, 2), (2, 3)] if quick else [(2, 2), (2, 3), (3, 2)]
     run.explanation = (
         "The real get_source_area / extract_percentile_contour executed on z3 terms with argsort returning ANY sorting permutation "
         "(symbolic, so every tie-breaking is covered), searchsorted the least admissible index, symbolic-index select/scatter as if-then-else "
